@@ -56,7 +56,7 @@ def build(rng):
     cycles = 0
     hopped = False
     for _ in range(rng.randrange(3, 31)):
-        pl = rng.choice(("new", "new", "same", "same", "d-eps", "d:before", "d:after", "d+eps", "d:after+1", "d:after+2", "d:after+3", "same+1"))
+        pl = rng.choice(("new", "new", "same", "same", "d-eps", "d:before", "d:after", "d+eps", "d:after+1", "d:after+2", "d:after+3", "same+1", "d-res"))
         if hopped:
             pl = "new"  # nothing else in the instant of a hopped request: keeps the script order equal to the execution order
         hops = 0
@@ -68,7 +68,7 @@ def build(rng):
         if running and cfg["refresh"]:
             k = math.floor((now - last_start) / cfg["refresh"]) + 1
             tick = last_start + k * cfg["refresh"]
-        if pl in ("d-eps", "d:before", "d:after", "d+eps") and tick is None:
+        if pl in ("d-eps", "d:before", "d:after", "d+eps", "d-res") and tick is None:
             pl = "new"
         if pl == "new":
             t = now + rng.choice((0.125, 0.25, 0.5, 1.0, 1.75, 2.5))
@@ -78,8 +78,9 @@ def build(rng):
             t = now
             rank = script[-1][1] if script else BEFORE
         else:
-            t, rank = {"d-eps": (tick - EPS, BEFORE), "d:before": (tick, BEFORE), "d:after": (tick, AFTER), "d+eps": (tick + EPS, BEFORE)}[pl]
-            if t < now or (t == now and script and script[-1][1] == AFTER and rank == BEFORE):
+            t, rank = {"d-eps": (tick - EPS, BEFORE), "d:before": (tick, BEFORE), "d:after": (tick, AFTER), "d+eps": (tick + EPS, BEFORE),
+                       "d-res": (tick - RES / 2, BEFORE)}[pl]  # d-res: the refresh timer runs in the iteration of this request
+            if t < now or 0 < t - now < 4 * RES or (t == now and script and script[-1][1] == AFTER and rank == BEFORE):
                 t, rank, pl = now + 0.125, BEFORE, "new"
         r = rng.random()
         if r < 0.2:
@@ -279,6 +280,8 @@ def judge(ctx, sc, seed, replay):
             ctx.count("requests_at_tick_after")
         elif pl in ("d-eps", "d+eps"):
             ctx.count("requests_tick_adjacent")
+        elif pl == "d-res":
+            ctx.count("requests_within_resolution_before_tick")
     brief = dict(config=sc["cfg"], script=[(t, r, a, h) for t, r, a, h in sc["script"]][:16])
     for mech, detail in run.violations[:2]:
         detail.update(brief)
